@@ -108,7 +108,7 @@ class SGraph:
                     frontier = nxt
             return D
         # weighted: min-plus closure over symbolic positive link weights (merged with ite-min)
-        W = self._store[weights]
+        W = self._store.get(weights, {})
         INFV = None
         D = [[INFV] * n for _ in range(n)]
         for i in range(n):
